@@ -43,6 +43,7 @@ type Runner struct {
 	a0      uint64
 	recent  [][]wmsg // the last sessions (witness of delayed effects)
 	broken  bool // the environment can no longer be used (dead node, hung call, leaked mutex)
+	nsample int
 	calib   bool // ... only because of a calibration limit of the harness (not a finding)
 }
 
@@ -268,6 +269,24 @@ func (rn *Runner) finish(peer *StubPeer, variant string, sess []Msg, last int) b
 	if peer.Stopped() {
 		rn.run.Count("peers_stopped_for_error", 1)
 	}
+	if rn.c.I%7 == 0 && rn.nsample < 1 && subj.Subject {
+		rn.nsample++
+		var ms []map[string]interface{}
+		for _, m := range sess[:last+1] {
+			h := hex.EncodeToString(m.Bytes)
+			if len(h) > 160 {
+				h = h[:160] + "..."
+			}
+			ms = append(ms, map[string]interface{}{"ch": fmt.Sprintf("%02x", m.Ch), "type": m.Kind, "level": m.Level, "mutation": short(m.Mut, 160), "len": len(m.Bytes), "hex": h})
+		}
+		rn.run.Sample(map[string]interface{}{"group": rn.c.Group, "case": rn.c.I, "node": rn.envDesc, "peer_state_prelude": variant, "messages": ms,
+			"peer_stopped_for_error": peer.Stopped(), "stop_reason": func() string {
+				if peer.Stopped() {
+					return short(capture.lastStop(), 160)
+				}
+				return ""
+			}(), "node_sent_to_peer": peer.nsent})
+	}
 	if n := peer.nsent; n > 0 {
 		rn.run.Count("messages_sent_to_peer", n)
 	}
@@ -293,6 +312,10 @@ func (rn *Runner) deliver(peer *StubPeer, variant string, sess []Msg, i int) boo
 	rname := reactorName(e, m.Ch)
 	if reactor == nil {
 		return true // the connection layer refuses unknown channels (covered by the framing group)
+	}
+	if len(m.Bytes) > e.capByCh[m.Ch] {
+		rn.run.Count("messages_over_channel_capacity_not_delivered", 1)
+		return true // ... and messages beyond the channel's RecvMessageCapacity (framing group)
 	}
 	rn.nmsg++
 	rn.run.Eval(1)
